@@ -446,7 +446,7 @@ def rand_spec(rng, idx, features):
             if isgate and pars and "measured" in features and avail and rng.random() < 0.4:
                 pars[0] = {"m": rng.choice(avail), "k": rng.choice([1, 2, 0.5, -1]), "fn": rng.choice([None, None, "sin"])}
             elif isgate and pars and "free" in features and rng.random() < 0.4:
-                pars[rng.randrange(len(pars))] = {"free": rng.choice(["x", "alpha", "y1"]), "k": rng.choice([1, 1, 2, -0.5]),
+                pars[rng.randrange(len(pars))] = {"free": rng.choice(["x", "alpha", "y1", "gamma", "beta", "E"]), "k": rng.choice([1, 1, 2, -0.5]),
                                                  "add": rng.choice([0, 0, 1])}
             elif kind == "gate1" and cls in ("Sgate", "Dgate") and "complexnum" in features and rng.random() < 0.3:
                 pars[0] = abs(pars[0]) if not isinstance(pars[0], dict) else pars[0]
@@ -707,3 +707,57 @@ def par_kind(p):
     if "loop" in p:
         return "loopexpr" if p.get("k", 1) != 1 else "loop"
     return "other"
+
+
+# ------------------------------------------------------------------------------------------ generated code
+
+_PI = re.compile(r"^(?:(-?\d+)\*)?np\.pi(?:/(\d+))?$")
+
+
+def pyarg_json(src):
+    """canonical form of one printed argument (source text)"""
+    import ast
+    src = src.strip()
+    m = _PI.match(src)
+    if m:
+        return {"pi": [int(m.group(1) or 1), int(m.group(2) or 1)]}
+    m = re.fullmatch(r"p\[(\d+)\]", src)
+    if m:
+        return {"loop": int(m.group(1))}
+    try:
+        v = ast.literal_eval(src)
+        if isinstance(v, (int, float, complex)) and not isinstance(v, bool):
+            return {"lit": sc(v)}
+    except Exception:  # noqa: BLE001
+        pass
+    return {"text": re.sub(r"p\[(\d+)\]", r"{p\1}", src)}
+
+
+def code_json(code):
+    """the structure of the text generate_code returns (parsed with `ast`), in the encoding of `jCode`"""
+    import ast
+    tree = ast.parse(code)
+    seg = lambda node: ast.get_source_segment(code, node)
+    out = dict(tdmN=None, n=0, ctx=[], lines=[])
+    for st in tree.body:
+        if isinstance(st, ast.Assign) and seg(st.targets[0]) == "prog":
+            call = st.value
+            if seg(call.func) == "sf.TDMProgram":
+                out["tdmN"] = [int(x) for x in ast.literal_eval(seg(call.keywords[0].value))]
+            else:
+                out["n"] = int(ast.literal_eval(seg(call.args[0])))
+        if isinstance(st, ast.With):
+            cx = st.items[0].context_expr
+            if isinstance(cx, ast.Call):
+                out["ctx"] = [[pyarg_json(seg(e)) for e in a.elts] for a in cx.args]
+            for ln in st.body:
+                e = ln.value            # <op> | <modes>
+                left, right = e.left, e.right
+                dagger = isinstance(left, ast.Attribute) and left.attr == "H"
+                call = left.value if dagger else left
+                kws = {k.arg: val_json(ast.literal_eval(seg(k.value))) for k in call.keywords}
+                modes = [right] if isinstance(right, ast.Subscript) else list(right.elts)
+                out["lines"].append(dict(cls=seg(call.func).split(".")[-1], args=[pyarg_json(seg(a)) for a in call.args],
+                                         select=kws.get("select"), dark=kws.get("dark_counts"), dagger=dagger,
+                                         modes=[int(ast.literal_eval(seg(m.slice))) for m in modes]))
+    return out
